@@ -144,7 +144,10 @@ def gen_wipe(rng, tier, mult, n=None, focus=None):
             elif k == 100:
                 ops.append(op_aeskeybad(r))
             elif k < 85:
-                pub = "-" if r.chance(1, 2) else hx(r.bytes(256))
+                # peer values: random, and the degenerate ones that pass the sanity check (0, 1, 2) -- a shortcut for them is
+                # still a path on which the private exponent has been loaded into a BIGNUM
+                pub = ("-" if r.chance(1, 2) else hx(bytes(255) + bytes([r.choice([0, 1, 1, 2])])) if r.chance(1, 8)
+                       else hx(r.bytes(256)))
                 z = 0 if r.chance(4, 5) else r.range(1, 24)          # leading zero bytes sometimes
                 priv = bytes(z) + r.bytes(32 - z)
                 # a tie: the blinding value drawn IS the private exponent (code that treats this draw specially
